@@ -259,7 +259,59 @@ func init() {
 				}
 				items = append(items, specItems("C10", sp, b, []int{mcrt.StratFIFO, mcrt.StratNewest}, nil, c10Oracle)...)
 			}
+			// race half: the same kind of programs, plus getters during rendering, shutdown and after it, in the race variant
+			for _, sp := range c10RacePrograms(tier) {
+				its := specItems("C10", sp, 1, []int{mcrt.StratFIFO}, []string{"race-variant"}, func(*Spec, *X, *mcrt.Result) (string, string) { return "", "" })
+				for i := range its {
+					its[i].Race = true
+					its[i].Name += "/race"
+				}
+				items = append(items, its...)
+			}
 			return items
 		},
 	})
+}
+
+func c10RacePrograms(tier string) []*Spec {
+	var out []*Spec
+	getters := []Op{{K: "cur"}, {K: "comp"}, {K: "abrt"}, {K: "id"}, {K: "isrun"}}
+	for _, rf := range []string{"manual", "auto", "none"} {
+		for _, total := range []int64{2, 0} {
+			for gi, g := range getters {
+				if tier != "thorough" && rf != "manual" && gi > 1 {
+					continue
+				}
+				sp := &Spec{Name: fmt.Sprintf("c10r-get-%s-t%d", g.K, total), Refresh: rf, Q: -1}
+				sp.Bars = []BarSpec{{Total: total, Pre: []DecorSpec{{Ewma: true, Sync: true, Widths: []int{2, 3}}}}, {Total: 1, Pre: []DecorSpec{syncD(1)}}}
+				sp.Main = []Op{{K: "add", B: 0}, {K: "add", B: 1}}
+				mut := []Op{{K: "incr", N: 1}, {K: "ewma", N: 1}}
+				if total == 0 {
+					mut = append(mut, Op{K: "settotal", N: -1, F: true})
+				}
+				obs := []Op{g, g, {K: "barwait"}, g, g}
+				sp.Clients = [][]Op{mut, obs, {{K: "incr", B: 1, N: 1}, {K: "prio", B: 1, N: 0}}}
+				if rf == "manual" {
+					sp.Clients = append(sp.Clients, []Op{{K: "refresh"}, {K: "refresh"}, {K: "refresh"}})
+				}
+				sp.Late = []Op{g, {K: "get"}}
+				out = append(out, sp)
+			}
+		}
+		// writers, priority changes, abort and shutdown racing with rendering
+		sp := &Spec{Name: "c10r-mixed", Refresh: rf, Q: -1, Notifier: true}
+		sp.Bars = []BarSpec{{Total: 3, Pre: []DecorSpec{syncD(2, 1)}, ExtRows: 1}, {Total: 3, Pre: []DecorSpec{syncD(1, 3)}}}
+		sp.Main = []Op{{K: "add", B: 0}, {K: "add", B: 1}}
+		sp.Clients = [][]Op{{{K: "incr", B: 0, N: 3}, {K: "get", B: 0}}, {{K: "write", S: "w\n"}, {K: "abort", B: 1}, {K: "get", B: 1}}, {{K: "prio", B: 0, N: 7, F: true}, {K: "refill", B: 0, N: 1}, {K: "traverse", B: 1}}}
+		if rf == "manual" {
+			sp.Clients = append(sp.Clients, []Op{{K: "refresh"}, {K: "refresh"}, {K: "refresh"}})
+		}
+		sp.Late = []Op{{K: "get", B: 0}, {K: "get", B: 1}}
+		out = append(out, sp)
+		sp2 := *sp
+		sp2.Name = "c10r-shutdown"
+		sp2.Clients = append(append([][]Op{}, sp.Clients...), []Op{{K: "shutdown"}})
+		out = append(out, &sp2)
+	}
+	return out
 }
